@@ -177,7 +177,7 @@ def c_reset(ctx, it, cfg):
     ctx.prove('model-marked-for-setup', m.fields['_isSetup'] is False)
 
 
-@REG.contract('TTPCalculator', [TTP + ':TTPCalculator.__init__', TTP + ':TTPCalculator._getStopTime'])
+@REG.contract('TTPCalculator', [TTP + ':TTPCalculator.__init__', TTP + ':TTPCalculator._getStopTime', TTP + ':TTPCalculator.calculateTTP'])
 def c_ttp(ctx, it, cfg):
     log = []
 
@@ -215,6 +215,22 @@ def c_ttp(ctx, it, cfg):
     vals = calc._getStopTime(Tq)
     ctx.prove('model-reset-then-temperature-then-solve', [e[0] for e in log] == ['reset', 'setT', 'solve'] and eq(log[1][1], Tq) and eq(log[2][1], mt))
     ctx.prove('reports-each-conditions-time', isinstance(vals, ArrBase) and vals.ndim == 1 and vals.shape[0] == 3 and and_(*[eq(vals.get(k), c.t) for k, c in enumerate(conds)]))
+    # the whole diagram, requested twice on the same calculator (a second request with another maximum time / after a model change must run again):
+    # every temperature of every request resets the model, sets that temperature and solves for the maximum time of THAT request
+    for rnd_, (Tlo, Thi) in enumerate(((real(ctx, 'Tlow'), real(ctx, 'Thigh')),) * 2):
+        del log[:]
+        for k, c in enumerate(conds):
+            c.t = real(ctx, 'request%d_satT%d' % (rnd_, k))
+        mt2 = real(ctx, 'maxTime_request%d' % rnd_)
+        calc.calculateTTP(Tlo, Thi, 2, mt2)
+        runs = [e for e in log if e[0] == 'solve']
+        sets = [e for e in log if e[0] == 'setT']
+        ok = len(runs) == 2 and len(sets) == 2 and [e[0] for e in log] == ['reset', 'setT', 'solve'] * 2
+        ctx.prove('request%d/every-temperature-is-run-afresh' % (rnd_ + 1), ok)
+        if ok:
+            ctx.prove('request%d/at-its-temperature-for-the-maximum-time-of-this-request' % (rnd_ + 1), and_(eq(sets[0][1], Tlo), eq(sets[1][1], Thi), eq(runs[0][1], mt2), eq(runs[1][1], mt2)))
+        tt = calc.fields['transformationTimes']
+        ctx.prove('request%d/table-holds-the-times-of-this-request' % (rnd_ + 1), and_(*[eq(tt.get(1, k), c.t) for k, c in enumerate(conds)]))
 
 
 from . import c05 as _c05
